@@ -289,7 +289,21 @@ def run(ctx) -> Report:
         else:
             rep.violation("C14-must", init, f"{callee} on every path", f"FormData.__init__ can return without running {callee}")
     calls = [n for n in ast.walk(init.node) if isinstance(n, ast.Call) and norm(n.func) == "_check_form_arity"]
-    if calls and len(calls[0].args) >= 3 and "arguments()" in norm(calls[0].args[1]) and norm(calls[0].args[2]) == "complex_mode":
+    from ..memokey import _local_defs
+
+    defs = _local_defs(init.node)
+
+    def reaches(expr, pred, depth=4):
+        """the expression, or a local definition it is a name for, satisfies pred"""
+        if pred(expr):
+            return True
+        if depth and isinstance(expr, ast.Name):
+            return any(reaches(d, pred, depth - 1) for d in defs.get(expr.id, []))
+        return False
+
+    is_arguments = lambda e: any(isinstance(n, ast.Call) and isinstance(n.func, ast.Attribute) and n.func.attr == "arguments" for n in ast.walk(e))  # noqa: E731
+    is_mode = lambda e: any((isinstance(n, ast.Name) and n.id == "complex_mode") or (isinstance(n, ast.Attribute) and n.attr == "complex_mode") for n in ast.walk(e))  # noqa: E731
+    if calls and len(calls[0].args) >= 3 and reaches(calls[0].args[1], is_arguments) and reaches(calls[0].args[2], is_mode):
         rep.ok("C14-must", (init, calls[0]), "arity check receives the original form's arguments and the complex_mode flag")
     else:
         rep.violation("C14-must", init, "_check_form_arity(...)", "the arity check is not called with the form's arguments and complex_mode")
